@@ -459,7 +459,7 @@ def spec_step(decls, tags, o, path=STACKS):
         if write:
             decls[(tg, n, v, f)] = (d, tb)
         if t:
-            for s in path:                 # the tag moves: gone from every stack, then set here
+            for s in path:                 # the tag moves: afterwards set here and in no other stack of the path
                 tags.pop((s, n, t, f), None)
             tags[(tg, n, t, f)] = v
         return "ok", decls, tags
